@@ -17,8 +17,8 @@ from concurrent.futures import ProcessPoolExecutor, as_completed
 
 VERIF = os.path.dirname(os.path.dirname(os.path.abspath(__file__)))
 REPO = os.environ.get("VERIF_REPO", "/repo")
-OUT = os.path.join(VERIF, "out")
-EVID = os.path.join(VERIF, "evidence")
+OUT = os.environ.get("VERIF_OUT") or os.path.join(VERIF, "out")
+EVID = os.environ.get("VERIF_EVID") or os.path.join(VERIF, "evidence")  # (overridden only by tools/mutant_sweep)
 
 COMMON_ASSUMPTIONS = [
     "Python semantics as encoded by pyvc (DESIGN.md 2.2): int = mathematical integers; float = mathematical reals "
